@@ -47,6 +47,13 @@ def unchanged(ctx, system, snap, wit, which):
         ctx.violation("interpolator_modified_its_input", f"{which} was modified by the interpolator", wit)
 
 
+def tiny_displacement(rng, shape):
+    """displacements of 1e-8 .. 1e-3 with random signs, a third of the components exactly zero, at least one non-zero"""
+    d = 10.0 ** rng.uniform(-8, -3, shape) * rng.choice([-1, 1], shape) * (rng.random(shape) < 0.67)
+    d.flat[int(rng.integers(d.size))] = 10.0 ** rng.uniform(-8, -3)
+    return d
+
+
 def check_real_space(ctx, interp_fn, s0, s1, common, excluded, alphas, wit, tag, centres_differ):
     """affinity + endpoint oracle on the real-space matrices, matched by R"""
     sysa = {a: interp_fn(a) for a in alphas}
@@ -143,9 +150,13 @@ def case_R(ctx, rng, idx):
     keys = [tuple(keyset), tuple(keyset)]
     if extra is not None:
         keys[which_extra] = keys[which_extra] + (extra,)
-    centre_mode = ["same", "same", "different"][int(rng.integers(3))]
+    centre_mode = ["same", "same", "different", "slightly_different"][int(rng.integers(4))]
     c0 = gen_systems.random_centers(rng, nw, ["random", "highsym", "outside"][int(rng.integers(3))])
     c1 = c0.copy() if centre_mode == "same" else c0 + rng.uniform(-0.3, 0.3, c0.shape)
+    if centre_mode == "slightly_different":
+        # centres that differ by 1e-8 .. 1e-3 only (relaxed structure, other pseudopotential): "the centres coincide" decided on a
+        # tolerance leaves the shifts of system0 in place (seed C26_b)
+        c1 = c0 + tiny_displacement(rng, c0.shape)
     centres_differ = centre_mode != "same"
     m0 = gen_systems.random_matrices(rng, iR0, lattice, nw, keys=keys[0])
     m1 = gen_systems.random_matrices(rng, iR1, lattice, nw, keys=keys[1])
@@ -197,7 +208,7 @@ def case_soc(ctx, rng, idx):
     nspin = 2 if rng.random() < 0.8 else 1
     nw = int(rng.integers(1, 4))
     lattice = gen_systems.random_lattice(rng)
-    centre_mode = ["same", "same", "different"][int(rng.integers(3))]
+    centre_mode = ["same", "same", "different", "slightly_different"][int(rng.integers(4))]
     centres_differ = centre_mode != "same"
     # the two SOC systems: channel R sets of system A have `relation`; system B gets its own sets, so that the
     # up(A)/up(B) and down(A)/down(B) pairs are generally overlapping/nested too
@@ -208,6 +219,8 @@ def case_soc(ctx, rng, idx):
         iRu1, iRd1 = gen_soc.rset_pair(rng, gen_soc.RELATIONS[int(rng.integers(4))], radius=rng.uniform(1.0, 1.8))
     cu = gen_systems.random_centers(rng, nw, "random")
     cu1 = cu.copy() if not centres_differ else cu + rng.uniform(-0.2, 0.2, cu.shape)
+    if centre_mode == "slightly_different":
+        cu1 = cu + tiny_displacement(rng, cu.shape)
     theta, phi = rng.uniform(0, np.pi), rng.uniform(0, 2 * np.pi)
 
     def build(iRu, iRd, c, name):
@@ -289,7 +302,7 @@ if __name__ == "__main__":
         tiers=dict(quick=dict(cases=408, shards=8, time=900), thorough=dict(cases=8000, shards=16, time=3000)),
         rule="pairs of random Hermitian systems on one random lattice (1-4 WFs) with R sets equal / permuted / nested / "
              "overlapping (cycled), matrix sets {Ham},{Ham,AA},{Ham,AA,BB},{Ham,AA,SS} with an extra key in one of them "
-             "in half of the cases, equal or different centres, use_pointgroup in {1,0,-1}; every third case a pair of "
+             "in half of the cases, equal, different or slightly different (1e-8..1e-3) centres, use_pointgroup in {1,0,-1}; every third case a pair of "
              "SystemSOC (nspin 1/2, SOC matrices on up/union/own R sets); alpha in {0,1,0.5} + random in [-1,2]. "
              "A case is distinct by (kind, relation, num_wann, matrix sets, centre mode, pointgroup option / SOC R modes)",
         assumptions=["endpoints compared through evaluate_k of the interpolated and of the original system (metamorphic) "
@@ -299,5 +312,5 @@ if __name__ == "__main__":
                      "real-space oracle (1-alpha)X0[R]+alpha X1[R] from the original systems, matched by R"],
         required_counters=("endpoint_alpha0", "endpoint_alpha1", "soc_endpoint_alpha0", "soc_endpoint_alpha1",
                            "R_relation_equal", "R_relation_permuted", "R_relation_nested", "R_relation_overlapping",
-                           "matrix_sets_differ", "centres_same", "centres_different"),
+                           "matrix_sets_differ", "centres_same", "centres_different", "centres_slightly_different"),
     )
